@@ -274,10 +274,13 @@ func (t *Trimmer) traceExtendMethod(fathers []*parser.Service, svc *parser.Servi
 			funcName := father.Name + "." + function.Name
 			for i, method := range t.trimMethods {
 				if ok, _ := method.MatchString(funcName); ok {
-					currentMap[svc] = struct{}{}
-					t.markFunction(function, ast, filename)
-					t.trimMethodValid[i] = true
-					ret = true
+					// same rule as markService: a pattern that is a strict prefix of the name is not a match
+					if funcName == method.String() || !strings.HasPrefix(funcName, method.String()) {
+						currentMap[svc] = struct{}{}
+						t.markFunction(function, ast, filename)
+						t.trimMethodValid[i] = true
+						ret = true
+					}
 				}
 			}
 		}
